@@ -20,7 +20,7 @@ type Case struct {
 }
 
 func gen(t *rapid.T) Case {
-	return Case{Data: wm.GenOSM(t, wm.OSMGenConfig{MaxNodes: 8, MaxWays: 5, MaxClosed: 4, MaxRelations: 5, Clockwise: true, Multipolygons: true, Network: true})}
+	return Case{Data: wm.GenOSM(t, wm.OSMGenConfig{MaxNodes: 8, MaxWays: 5, MaxClosed: 4, MaxRelations: 5, Clockwise: true, Multipolygons: true, Network: true, GeometryKeys: true, MixedMembers: true})}
 }
 
 // the documented mapping of OSM keys to searchable b6 keys
@@ -62,6 +62,7 @@ func model(d wm.OSMData) (map[b6.FeatureID]*expected, bool) {
 		nodes[n.ID] = n.LL
 		id := fid(b6.FeatureTypePoint, b6.NamespaceOSMNode, n.ID)
 		out[id] = &expected{id: id, tags: mapTags(n.Tags)}
+		delete(out[id].tags, b6.PointTag) // an OSM tag keyed like the geometry tag is replaced by the geometry
 	}
 	closed := map[int64]bool{}
 	for _, w := range d.Ways {
@@ -72,6 +73,7 @@ func model(d wm.OSMData) (map[b6.FeatureID]*expected, bool) {
 		}
 		id := fid(b6.FeatureTypePath, b6.NamespaceOSMWay, w.ID)
 		e := &expected{id: id, tags: mapTags(w.Tags)}
+		delete(e.tags, b6.PathTag)
 		order := append([]int64{}, w.Nodes...)
 		if len(w.Nodes) > 2 && w.Nodes[0] == w.Nodes[len(w.Nodes)-1] {
 			closed[w.ID] = true
@@ -172,6 +174,10 @@ func check(c Case) vlib.Outcome {
 	if !ok {
 		return vlib.Outcome{Skip: true, Classes: []string{"skipped:missing-nodes"}}
 	}
+	nodeLL := map[b6.FeatureID]wm.LL{}
+	for _, n := range c.Data.Nodes {
+		nodeLL[fid(b6.FeatureTypePoint, b6.NamespaceOSMNode, n.ID)] = n.LL
+	}
 	for _, world := range []string{"basic", "compact"} {
 		var w b6.World
 		var err error
@@ -206,6 +212,11 @@ func check(c Case) vlib.Outcome {
 				return vlib.Fail("%s world: %v has tags %s, the rules give %s", world, id, render(got), render(e.tags))
 			}
 			switch id.Type {
+			case b6.FeatureTypePoint:
+				ll, err := w.FindLocationByID(id)
+				if err != nil || wm.LLFromS2(ll) != nodeLL[id] {
+					return vlib.Fail("%s world: point %v is at %v (err %v), the node is at %v", world, id, wm.LLFromS2(ll), err, nodeLL[id])
+				}
 			case b6.FeatureTypePath:
 				p := f.(b6.PhysicalFeature)
 				var refs []b6.FeatureID
